@@ -6,6 +6,7 @@
    hypothesis says otherwise; the specifications never contain `UB`, so every
    equation also says that no unchecked read / unwrap / index of the modelled
    code is reachable out of bounds. *)
+From EP Require Parse.ConstsAllOk.   (* every numeric `pub const` of the crate, regenerated from the source on every run, has its RFC / IANA value *)
 From EP Require Import Base.Bytes CtlMsg.Spec CtlMsg.Model CtlMsg.Proofs.
 Local Open Scope N_scope.
 
